@@ -224,7 +224,7 @@ def _run_case(case):
     out = {"violations": [], "n": 1, "counts": {}, "sig": None}
     sym = all(f_3ph.is_symmetric_dev(d) for d in case["devs"])
     vg = str(net.trafo.vector_group.iloc[0]) if len(net.trafo) else "none"
-    toks0 = ["vg=" + vg] + sorted(set("dev=" + (d[0] if d[0] != "set" else "set:%s.%s" % (d[1], d[3])) for d in case["devs"]))
+    toks0 = ["vg=" + vg, "net_sn_mva=%g" % float(net.sn_mva)] + sorted(set("dev=" + (d[0] if d[0] != "set" else "set:%s.%s" % (d[1], d[3])) for d in case["devs"]))
     net3 = copy.deepcopy(net)
     oc = f_3ph.run_3ph(net3)
     out["counts"]["outcome3ph_" + oc] = 1
